@@ -53,6 +53,8 @@ type gnode struct {
 	started  bool
 	crashed  bool
 	maxRound uint64
+	bcasts   []*gpbft.GMessage // every first transmission of this node, in order
+	begun    bool              // its start alarm has fired (the instance exists)
 }
 
 type gnet struct {
@@ -81,6 +83,12 @@ type gnet struct {
 	onSend    func(from int, msg *gpbft.GMessage) // adversary hook: sees every first transmission of an honest node
 	delay     func(from, to int, msg *gpbft.GMessage) (time.Duration, bool) // before stabilisation: explicit delay of one transmission
 	stopAt    time.Time                                                      // run() returns once the clock reaches this time
+	// network-level trace for the Layer-N network model (RefineRun.net_trace_ok)
+	rec     bool
+	acts    []string
+	nct     *chainTok
+	byzSeen map[string]bool
+	t0      time.Time
 }
 
 var _ gpbft.Host = (*gnode)(nil)
@@ -131,6 +139,7 @@ func (n *gnode) RequestBroadcast(mb *gpbft.MessageBuilder) error {
 	}
 	n.sentBy[k] = append(n.sentBy[k], msg)
 	if n != n.net.obsHost {
+		n.bcasts = append(n.bcasts, msg)
 		n.net.send(n.idx, msg, true)
 	}
 	return nil
@@ -199,6 +208,9 @@ func newGnet(r *rng, cfg gnetCfg, viol func(clause, sig, detail string)) *gnet {
 	}
 	g.pt = gpbft.NewPowerTable()
 	must(g.pt.Add(entries...))
+	g.nct = &chainTok{m: map[string]int64{}}
+	g.byzSeen = map[string]bool{}
+	g.t0 = g.now
 	g.supp = gpbft.SupplementalData{PowerTable: ptCid}
 	g.base = cfg.inputs[0].Base()
 	mk := func(i int, honest bool, in *gpbft.ECChain) *gnode {
@@ -310,18 +322,103 @@ func (g *gnet) deliver(pm *pendingMsg) {
 			n.qualityDelivered[pm.msg.Sender] = pm.msg.Vote.Value
 		}
 	}
+	nb := len(n.bcasts)
+	if g.rec && !g.nodes[pm.from].honest {
+		key := fmt.Sprintf("%d/%d/%d/%s", pm.from, pm.msg.Vote.Round, pm.msg.Vote.Phase, ckey(pm.msg.Vote.Value))
+		if !g.byzSeen[key] {
+			g.byzSeen[key] = true
+			val, _ := g.nct.chain(pm.msg.Vote.Value)
+			g.acts = append(g.acts, fmt.Sprintf("AByz (Spec.V %d %d Spec.%s %s)", g.ptIndex(pm.msg.Sender), pm.msg.Vote.Round, phaseCoq(pm.msg.Vote.Phase), val))
+		}
+	}
 	if err := n.p.ReceiveMessage(g.ctx, vm); err != nil {
 		g.viol("delivering a validated message never yields an internal error or panic", "c07-receive-error",
 			fmt.Sprintf("node %d %s r%d from %d: %v", n.idx, pm.msg.Vote.Phase, pm.msg.Vote.Round, pm.from, err))
 	}
+	if g.rec {
+		g.acts = append(g.acts, fmt.Sprintf("ADeliver %d %d %s %s", g.ptIndex(n.id), int64(g.now.Sub(g.t0)), g.msgTerm(pm.msg), g.swayHint(n, nb)))
+	}
 	g.progressCheck(n)
+}
+
+// Coq term of a message for the Layer-N network model (senders and signers are power-table indices)
+func (g *gnet) msgTerm(msg *gpbft.GMessage) string {
+	rank := "0"
+	if msg.Vote.Phase == gpbft.CONVERGE_PHASE {
+		sp, _ := g.pt.Get(msg.Sender)
+		rank = rankKey(gpbft.ComputeTicketRank(msg.Ticket, sp))
+	}
+	j := "None"
+	if just := msg.Justification; just != nil {
+		var sl []int64
+		_ = just.Signers.ForEach(func(b uint64) error { sl = append(sl, int64(b)); return nil })
+		j = fmt.Sprintf("(Some (mkJ %d %s %s %s))", just.Vote.Round, phaseCoqN(just.Vote.Phase), g.nct.raw(just.Vote.Value), cListZ(sl))
+	}
+	return fmt.Sprintf("(mkM %d %d %s %s %s %s)", g.ptIndex(msg.Sender), msg.Vote.Round, phaseCoqN(msg.Vote.Phase), g.nct.raw(msg.Vote.Value), rank, j)
+}
+
+// the value of the last CONVERGE broadcast made during the current event (the model's hint for Go's map order in tryCommit)
+func (g *gnet) swayHint(n *gnode, nb int) string {
+	for i := len(n.bcasts) - 1; i >= nb; i-- {
+		if m := n.bcasts[i]; m.Vote.Phase == gpbft.CONVERGE_PHASE {
+			return "(Some " + g.nct.raw(m.Vote.Value) + ")"
+		}
+	}
+	return "None"
+}
+
+// terms for RefineRun.net_trace_ok: config, honest flags and inputs by table index, actions, final observations
+func (g *gnet) netTrace() (cfg, honest, inputs, acts, finals string) {
+	var p0 *gpbft.Participant
+	for _, nd := range g.nodes {
+		if nd.honest {
+			p0 = nd.p
+			break
+		}
+	}
+	var tos, ras []int64
+	for r := 0; r < 12; r++ {
+		tos = append(tos, p0.VerifPhaseTimeout(uint64(r), false))
+	}
+	for a := 0; a < 40; a++ {
+		ras = append(ras, p0.VerifRebroadcastAfter(a))
+	}
+	cfg = fmt.Sprintf("(mkCfg %s %s %d %d %d %s %s)", cListZ(g.pt.ScaledPower), cZ(g.pt.ScaledTotal), p0.VerifMaxLookahead(),
+		p0.VerifRebroadcastImmediatelyAfter(), p0.VerifPhaseTimeout(0, true), cListZ(tos), cListZ(ras))
+	hs := make([]string, len(g.nodes))
+	ins := make([]string, len(g.nodes))
+	var fs []string
+	for _, nd := range g.nodes {
+		k := g.ptIndex(nd.id)
+		hs[k] = cBool(nd.honest)
+		ins[k] = g.nct.raw(nd.input)
+		if !nd.honest || !nd.begun {
+			continue
+		}
+		if nd.decided != nil {
+			fs = append(fs, fmt.Sprintf("(%d, Some %s, 0, 0)", k, g.nct.raw(nd.decided.Vote.Value)))
+		} else {
+			pr := nd.p.Progress()
+			fs = append(fs, fmt.Sprintf("(%d, None, %d, %d)", k, pr.Round, int(pr.Phase)))
+		}
+	}
+	return cfg, cList(hs), cList(ins), cList(g.acts), cList(fs)
 }
 
 func (g *gnet) fireAlarm(n *gnode) {
 	n.hasAlarm = false
+	nb := len(n.bcasts)
 	if err := n.p.ReceiveAlarm(g.ctx); err != nil {
 		g.viol("delivering a timer never yields an internal error or panic", "c07-alarm-error", fmt.Sprintf("node %d: %v", n.idx, err))
 	}
+	if g.rec {
+		if !n.begun {
+			g.acts = append(g.acts, fmt.Sprintf("AStart %d %d", g.ptIndex(n.id), int64(g.now.Sub(g.t0))))
+		} else {
+			g.acts = append(g.acts, fmt.Sprintf("AAlarm %d %d %s", g.ptIndex(n.id), int64(g.now.Sub(g.t0)), g.swayHint(n, nb)))
+		}
+	}
+	n.begun = true
 	g.progressCheck(n)
 }
 
@@ -557,7 +654,7 @@ func (g *gnet) specTrace() (powers, honest, inputs, votes string, n int) {
 	sort.SliceStable(sorted, func(a, b int) bool { return sorted[a].seq < sorted[b].seq })
 	for _, v := range sorted {
 		val, _ := ct.chain(v.msg.Vote.Value)
-		vs = append(vs, fmt.Sprintf("V %d %d %s %s", v.sender, v.msg.Vote.Round, phaseCoq(v.msg.Vote.Phase), val))
+		vs = append(vs, fmt.Sprintf("Spec.V %d %d Spec.%s %s", v.sender, v.msg.Vote.Round, phaseCoq(v.msg.Vote.Phase), val))
 	}
 	return cListZ(ps), cList(hs), cList(ins), "[" + joinStr(vs, "; ") + "]", len(vs)
 }
